@@ -63,6 +63,10 @@ def step (st : St) : List String → St × String
   | ["file", u, "data", d] => match fromHex u, fromHex d with
     | some u, some d => (st.setFile u (.content d), "ok")
     | _, _ => (st, "bad-op")
+  -- the authorized_keys file of the account the server runs as: no user's file, it authorizes nobody here
+  | ["srvfile", d] => match fromHex d with
+    | some _ => (st, "ok")
+    | none => (st, "bad-op")
   | ["authkey", u, k] => match fromHex u, key? k with
     | some u, some k => (st, if authorizeKey st.lookup u k = .ok then "ok" else "err")
     | _, _ => (st, "bad-op")
